@@ -305,4 +305,42 @@ def eview {E : Type} (cfgOf : E → Cfg C P) (st : EState C E) (k : Key) : Optio
 def deliverRowLiveFile (cfg : Cfg C P) (st : State C) (sc : Scan C) (k : Key) : Option (Row C) :=
   rowOf cfg (st.file k) (memViewOf st.heap sc.nodes k)
 
+/-! ## A fourth `Tree.Copy`: `cached`
+
+The tree remembers the copy it handed out last and gives the SAME copy to every later scan;
+an update forgets it only when it changed the tree's structure (`bytesAdded != 0 || newNode`:
+a buffer or an array was allocated, a node added).  An update that hits an existing period of an
+existing key writes in place, adds no byte — and leaves the remembered copy in place: the next
+scan starts from a copy that lacks that point.  (A flush installs a new tree: nothing
+remembered.)  Fresh copies are `deep` ones. -/
+
+structure CState (C : Type) where
+  base : State C := {}
+  /-- the copy the live tree remembers (`bt.snapshot`) -/
+  cache : Option (List Node) := none
+
+/-- did an update allocate anything / add a node (`bytesAdded != 0 || newNode`) -/
+def structural (a b : State C) : Bool :=
+  b.heap.nb != a.heap.nb || b.heap.na != a.heap.na || b.live.length != a.live.length
+
+def cstep (cfg : Cfg C P) (st : CState C) : Ev P → CState C × Option (Delivery C)
+  | .scanStart =>
+      match st.cache with
+      | some ns =>
+          ({ st with base := { st.base with scans := st.base.scans ++ [{ nodes := ns, file := st.base.file }] } }, none)
+      | none =>
+          let b := scanStart .deep st.base
+          ({ base := b, cache := b.scans.getLast?.map (fun sc => sc.nodes) }, none)
+  | .flush raw => ({ base := flush cfg st.base raw, cache := none }, none)
+  | e =>
+      let r := step cfg .deep st.base e
+      ({ base := r.1, cache := if structural st.base r.1 then none else st.cache }, r.2)
+
+def crun (cfg : Cfg C P) : CState C → List (Ev P) → CState C × List (Delivery C)
+  | st, [] => (st, [])
+  | st, e :: es =>
+      let (st1, d) := cstep cfg st e
+      let (st2, ds) := crun cfg st1 es
+      (st2, d.toList ++ ds)
+
 end Zeno.Snap
